@@ -8,6 +8,7 @@
     every generated case inside the domain of the statement (representable, admissible)."""
 import os
 import shutil
+import sys
 import tempfile
 
 import rowgen
@@ -409,6 +410,9 @@ def run(ctx):
     run_flow(ctx, stats, nontrivial, samples, RowParser, CellParser, RowDataSheet, SheetParser, FlowRowModel,
              CSVSheetReader, XLSXSheetReader)
 
+    # ------------------------------------------------ one cell text through an xlsx file
+    run_xlsx_cells(ctx, stats)
+
     ctx.stats["c07"] = stats
     v.coverage["distinct_nontrivial"] = len(nontrivial)
     v.coverage["rule"] = (
@@ -428,6 +432,65 @@ def run(ctx):
         "pydantic-v1 construction modelled on the trees the parser can produce (defaults filled, None rejected below the top level)",
         "tablib/openpyxl/csv are not modelled: the file legs are oracle-only",
     ]
+
+
+def _rowfix_tables():
+    import importlib.util
+    here = os.path.dirname(os.path.abspath(__file__))
+    sys.path.insert(0, os.path.join(here, "..", "translator"))
+    try:
+        spec = importlib.util.spec_from_file_location("tables_rowfix", os.path.join(here, "..", "translator", "tables_rowfix.py"))
+        mod = importlib.util.module_from_spec(spec)
+        spec.loader.exec_module(mod)
+        return mod
+    finally:
+        sys.path.pop(0)
+
+
+def is_formula_text(s):
+    """what openpyxl stores as a formula: a str of two or more characters that starts with '='"""
+    return len(s) > 1 and s.startswith("=")
+
+
+def run_xlsx_cells(ctx, stats):
+    """The xlsx cell stream (FX7, finding xlsx-cell-starting-with-equals-sign): representable cell texts — a third of them
+    of the form '=…' — written by RowDataSheet.export(..., 'xlsx') next to an id cell, read by XLSXSheetReader.
+    Oracle: every text comes back as written.  Correspondence: Io/XlsxCell.v (engine 107 fn 8) says the same."""
+    v, rng, m = ctx.v, ctx.rng, ctx.model
+    n = (400 if ctx.tier == "thorough" else 60) * ctx.scale
+    texts = ["=2+2 is four", "=", "==", "a=b"]
+    while len(texts) < n:
+        t = rowgen.good_text(rng)
+        if rng.random() < 0.33:
+            t = ("=" + t).strip()
+        texts.append(t)
+    stats["xlsx_cells"] = len(texts)
+    stats["xlsx_formula_texts"] = sum(is_formula_text(t) for t in texts)
+    v.coverage["evaluations"] += len(texts)
+    r = run_cli_mode(lambda: _rowfix_tables().xlsx_cells_roundtrip(texts))
+    if r[0] != "ok":
+        v.failing_input("file-roundtrip-xlsx", f"xlsx export/read of one-cell rows fails: {r!r}"[:2000],
+                        dict(fn="xlsx_cells", texts=texts))
+        return
+    back = r[1]
+    lost = [(t, b) for t, b in zip(texts, back) if b != t]
+    formulas = [(t, b) for t, b in lost if is_formula_text(t) and b == ""]
+    other = [tb for tb in lost if tb not in formulas]
+    if formulas:
+        v.failing_input("xlsx-cell-starting-with-equals-sign",
+                        f"{len(formulas)} cell text(s) of the form '=…' come back empty from an xlsx file, e.g. {formulas[:4]!r}",
+                        dict(fn="xlsx_cells", texts=[t for t, _ in formulas][:8]))
+    if other:
+        v.failing_input("file-roundtrip-xlsx", f"cell texts changed by the xlsx file: {other[:6]!r}",
+                        dict(fn="xlsx_cells", texts=[t for t, _ in other][:8]))
+    if m:
+        outs = model_ask(m, [f"(107 8 {rowlib.e_str(t)})" for t in texts])
+        for t, b, o in zip(texts, back, outs):
+            mo = rowlib.d_str(o) if isinstance(o, list) and all(isinstance(c, int) for c in o) else None
+            if mo is None:
+                ctx.disagree("xlsx cell: model could not decode the request", t, o, b)
+            elif mo != (b if b is not None else ""):
+                ctx.disagree("xlsx cell text read back", t, mo, b)
 
 
 def flush_domain(ctx, m, dom_batch, stats, key="generic-roundtrip", what="row_dom"):
@@ -652,7 +715,9 @@ def run_flow(ctx, stats, nontrivial, samples, RowParser, CellParser, RowDataShee
         for (al, alr), o in zip(alias_batch, outs):
             mp = norm_res(o, rowlib.d_value)
             case = dict(model="FlowRowModel", cells=al, stream="alias")
-            if mp[0] == "bad":
+            if mp[0] == "err" and mp[1] == rowlib.ERR_UNSUPPORTED:
+                stats["model_unsupported"] += 1
+            elif mp[0] == "bad":
                 ctx.disagree("parse_row (alias row): model could not decode the request", case, mp, alr)
             elif (mp[0] == "ok") != (alr[0] == "ok"):
                 ctx.disagree("parse_row (alias row) ok/error", case, mp, alr)
@@ -663,15 +728,32 @@ def run_flow(ctx, stats, nontrivial, samples, RowParser, CellParser, RowDataShee
 
     # ---- through files: RowDataSheet.export -> reader -> SheetParser -> parse_row
     scratch = tempfile.mkdtemp(prefix="rpftc07")
+    # directed: the rows of every file-leg entry of findings.d/C07.json (open and fixed alike), every run, both formats
+    directed = []
     try:
-        for j in range(min(n_files, len(good_rows))):
-            multi = j % 4 == 3
-            rows = [good_rows[j]] if not multi else [good_rows[(j * 7 + k) % len(good_rows)] for k in range(3)]
+        import json
+        fj = os.path.join(os.path.dirname(os.path.abspath(__file__)), "..", "findings.d", "C07.json")
+        for f in json.load(open(fj))["findings"]:
+            rp = f.get("replay") or {}
+            if rp.get("fn") == "file":
+                FlowRowModel(**rp["rows"][0])
+                directed.append(rp["rows"])
+    except Exception:
+        directed = []
+    fstats["directed_file_sheets"] = len(directed)
+    try:
+        for j in range(-len(directed), min(n_files, len(good_rows))):
+            if j < 0:
+                rows = directed[j]
+                multi = len(rows) > 1
+            else:
+                multi = j % 4 == 3
+                rows = [good_rows[j]] if not multi else [good_rows[(j * 7 + k) % len(good_rows)] for k in range(3)]
             fstats["multi_row_sheets"] += multi
             insts = [FlowRowModel(**r) for r in rows]
             T, X = layouts[False]
             for fmt in ("csv", "xlsx"):
-                d = os.path.join(scratch, f"s{j}{fmt}")
+                d = os.path.join(scratch, f"s{j}{fmt}".replace("-", "d"))
                 os.makedirs(d)
                 v.coverage["evaluations"] += 1
                 fstats["file_" + fmt] += 1
@@ -845,6 +927,10 @@ def replay(rep):
         print("cells:", un)
         print("back :", back)
         return un[0] == "ok" and back[0] == "ok" and _deep_eq(back[1], erase_excluded(flow_desc(), r["value"], X))
+    if r["fn"] == "xlsx_cells":
+        got = run_cli_mode(lambda: _rowfix_tables().xlsx_cells_roundtrip(r["texts"]))
+        print("read back:", got)
+        return got[0] == "ok" and got[1] == r["texts"]
     if r["fn"] == "file":
         parser = RowParser(FlowRowModel, CellParser())
         d = tempfile.mkdtemp(prefix="rpftc07r")
